@@ -87,6 +87,7 @@ def gen_cases(ctx, rng):
             again = json.loads(json.dumps(entries))
             j = rng.range(1, len(again) - 1)
             again[j]["enabled"] = False
+            again[j]["upstream"] = again[j]["upstream"] + "0"        # never identical to the first body
             if rng.chance(1, 2):
                 again[j]["upstream"] = "moved:7"
             reqs.append(A.req("POST", "/populate", A.J(again)))
@@ -108,8 +109,10 @@ def oracle(case, resps):
     if not info:
         return None
     fr = info["first_repeat"]
-    nrep = sum(1 for k in range(fr, len(case["reqs"])) if case["reqs"][k]["path"] == "/populate"
-               and A.text(case["reqs"][k]["json"]) == A.text(case["reqs"][0]["json"]))
+    nrep = 0            # the identical repeats are the consecutive populate requests from first_repeat on that equal the first one
+    while fr + nrep < len(case["reqs"]) and case["reqs"][fr + nrep]["path"] == "/populate" \
+            and A.text(case["reqs"][fr + nrep]["json"]) == A.text(case["reqs"][0]["json"]):
+        nrep += 1
     for k in range(fr, fr + nrep):
         if k >= len(resps):
             break
